@@ -475,10 +475,11 @@ Proof.
   destruct H as (Hpre & Hem & Hap & Hc & Hdown & Hsess & Hq).
   destruct (c2s s) as [|[[ep id] e] rest] eqn:Hcs; [unfold INV; now rewrite Hcs|].
   destruct (fb_sess s) as [se|] eqn:Hse; [|unfold INV; now rewrite Hcs, Hse].
-  destruct (a_peer s) as [p|] eqn:Hp; [|congruence]. destruct Hq as [Hsid Hq]. rewrite Hup, Hcs, Hse in Hq.
+  destruct (a_peer s) as [p|] eqn:Hp; [|congruence]. destruct Hq as [Hsid Hq].
   assert (Hep : ep = a_epoch s) by (apply (Hc (ep, id, e)); now left). subst ep.
   destruct Hq as (pre & HEq & Hcons & Hnext & Hbad & Hread & Hm).
   destruct (fs_id se =? p_sid p) eqn:Hmatch; [|congruence].
+  rewrite Hup in Hm.
   destruct (MI_deliver _ _ _ _ _ _ _ _ _ _ _ Hm Hcons) as (Hidn & HpreA & Hok & Hfail).
   destruct (lru_set id (fs_seen se)) as [dup seen'] eqn:Hl. cbn [fst snd] in HpreA, Hok, Hfail.
   set (ap' := if dup then applied s else applied s ++ [(a_epoch s, id, e)]).
@@ -509,12 +510,150 @@ Proof.
                                 (set_server (fb_peer s) (Some {| fs_id := fs_id se; fs_next := fs_next se; fs_seen := seen' |})
                                         (fb_fed s) (fb_ret s) (fb_ops s) ap' (published s)
                                         (set_stream false [] [] s))).
-    { subst ap'. unfold fq_cut. destruct dup; [sfields; rewrite Hup; sfields; rewrite Hp; reflexivity|].
-      destruct e; unfold apply_event, fed_op; sfields; rewrite Hup; sfields; rewrite Hp; reflexivity. }
+    { subst ap'. unfold fq_cut, set_queue. destruct dup; [sfields; rewrite Hp; reflexivity|].
+      destruct e; unfold apply_event, fed_op; sfields; rewrite Hp; reflexivity. }
     unfold INV, Eof, Aof. sfields.
     split; [exact Hpre'|]. split; [exact Hem|]. split; [exact Hap'|].
     split; [intros t []|]. split; [intros _; now split|].
     split; [intros se' Hs'; injection Hs' as <-; now split|]. split; [exact Hsid|].
     exists pre. sfields. rewrite Hmatch, HA'. fold (Eof s).
     split; [exact HEq|]. split; [exact Hcons|]. split; [exact Hnext|]. split; [exact Hbad|]. split; [exact Hread|exact Hfail].
+Qed.
+
+(* ---- one readLoop iteration ---- *)
+Lemma QI_ack E A ep cs id sc' q sess sid :
+  QI E A ep true cs (id :: sc') q sess sid -> QI E A ep true cs sc' (eq_ack id q) sess sid.
+Proof.
+  intros (pre & HEq & Hcons & Hnext & Hbad & Hread & Hm).
+  destruct sess as [se|]; [|discriminate]. destruct (fs_id se =? sid) eqn:Hid; [|discriminate].
+  destruct Hm as (D & C & U & HD & HnD & Hpd & Hc2 & Hup & Hdn & HA & Hseen & Hs2).
+  assert (Hlt : id < nlen D) by (rewrite HnD; apply Hs2; now left).
+  pose proof Hcons as HcL. rewrite HEq in HcL. apply consec_app in HcL as [_ HcL]. rewrite N.add_0_l in HcL.
+  assert (HlenE : nlen E = nlen pre + nlen (evq_l q)) by (rewrite HEq at 1; apply nlen_app).
+  assert (HDE : nlen D <= nlen E) by (rewrite HD, !nlen_app; lia).
+  (* the new list, and the acknowledged front part *)
+  assert (Hnew : exists pre', E = pre' ++ ack_list id (evq_l q) /\ nlen pre <= nlen pre' /\ nlen pre' <= nlen D).
+  { destruct (N.ltb_spec id (nlen pre)) as [Hb|Hb].
+    - exists pre. rewrite (ack_list_below _ _ _ HcL Hb). split; [exact HEq|]. lia.
+    - destruct (consec_split _ _ id HcL Hb) as (l1 & e & l2 & HL & Hl1); [lia|].
+      exists (pre ++ l1 ++ [(id, e)]). rewrite HL in HcL |- *. rewrite (ack_list_consec _ _ _ _ _ HcL).
+      split; [rewrite HEq, HL, <- !app_assoc; reflexivity|]. rewrite !nlen_app, nlen_one. lia. }
+  destruct Hnew as (pre' & HEq' & Hpp & Hpd').
+  assert (HcL' : consec (nlen pre') (ack_list id (evq_l q))).
+  { pose proof Hcons as Hc'. rewrite HEq' in Hc'. apply consec_app in Hc' as [_ Hc']. now rewrite N.add_0_l in Hc'. }
+  assert (HlenE' : nlen E = nlen pre' + nlen (ack_list id (evq_l q))) by (rewrite HEq' at 1; apply nlen_app).
+  (* the read position is beyond what was acknowledged *)
+  assert (Hrd : evq_read q = None \/ exists r, evq_read q = Some r /\ nlen D <= r /\ r < nlen E).
+  { rewrite (Hup eq_refl). destruct U as [|[r e] U']; [now left|right]. exists r. split; [reflexivity|].
+    pose proof Hcons as Hc'. rewrite HD, app_assoc in Hc'. apply consec_head in Hc'. rewrite nlen_app in Hc'.
+    rewrite HD, !nlen_app, nlen_cons. lia. }
+  exists pre'. unfold eq_ack. sfields. rewrite Hid.
+  split; [exact HEq'|]. split; [exact Hcons|]. split; [exact Hnext|].
+  split.
+  { rewrite Hbad. cbn [orb]. destruct Hrd as [->|(r & -> & Hr1 & Hr2)]; [reflexivity|].
+    rewrite (has_id_consec _ _ r HcL'). apply andb_false_intro2. apply negb_false_iff. lia. }
+  split.
+  { destruct Hrd as [->|(r & -> & Hr1 & Hr2)]; [now left|right]. exists r. split; [reflexivity|]. lia. }
+  exists D, C, U. split; [exact HD|]. split; [exact HnD|]. split; [exact Hpd'|]. split; [exact Hc2|].
+  split; [exact Hup|]. split; [discriminate|]. split; [exact HA|]. split; [exact Hseen|].
+  intros i Hi. apply Hs2. now right.
+Qed.
+
+Lemma INV_ack_deliver s : INV s -> INV (fq_ack_deliver s).
+Proof.
+  intros H. unfold fq_ack_deliver. destruct (st_up s) eqn:Hup; [|exact H].
+  destruct (s2c s) as [|id rest] eqn:Hsc; [exact H|].
+  destruct (a_peer s) as [p|] eqn:Hp; [|exact H].
+  destruct H as (Hpre & Hem & Hap & Hc & Hdown & Hsess & Hq). rewrite Hp in Hq. destruct Hq as [Hsid Hq].
+  rewrite (set_queue_some _ _ p) by (sfields; exact Hp).
+  unfold INV, Eof, Aof. sfields.
+  split; [exact Hpre|]. split; [exact Hem|]. split; [exact Hap|]. split; [exact Hc|]. split; [discriminate|].
+  split; [exact Hsess|]. split; [exact Hsid|]. rewrite Hup, Hsc in Hq. now apply QI_ack.
+Qed.
+
+(* ---- the handshake ---- *)
+(* resume: setReadPosition(nextEventID), then (if the stream opens) open *)
+Lemma QI_resume E A ep q se sid up' :
+  QI E A ep false [] [] q (Some se) sid -> (fs_id se =? sid) = true ->
+  QI E A ep up' [] [] (eq_set_read (fs_next se) q) (Some se) sid.
+Proof.
+  intros (pre & HEq & Hcons & Hnext & Hbad & Hread & Hm) Hid. rewrite Hid in Hm.
+  destruct Hm as (D & C & U & HD & HnD & Hpd & Hc2 & Hup & Hdn & HA & Hseen & Hs2).
+  destruct (Hdn eq_refl) as [-> Hrd]. cbn [app] in HD, HA.
+  pose proof Hcons as HcL. rewrite HEq in HcL. apply consec_app in HcL as [_ HcL]. rewrite N.add_0_l in HcL.
+  assert (HlenE : nlen E = nlen pre + nlen (evq_l q)) by (rewrite HEq at 1; apply nlen_app).
+  assert (HlenU : nlen E = nlen D + nlen U) by (rewrite HD at 1; apply nlen_app).
+  assert (Hnew : (if has_id (fs_next se) (evq_l q) then Some (fs_next se) else evq_read q) = head_id U).
+  { rewrite (has_id_consec _ _ _ HcL). destruct U as [|[r e] U'].
+    - rewrite nlen_nil in HlenU. replace ((nlen pre <=? fs_next se) && (fs_next se <? nlen pre + nlen (evq_l q))) with false by lia.
+      destruct Hrd as [->|(r & Hr & Hge)]; [reflexivity|].
+      destruct Hread as [Hn|(r' & Hr' & _ & Hlt)]; [congruence|]. rewrite Hr in Hr'. injection Hr' as <-. lia.
+    - rewrite nlen_cons in HlenU. replace ((nlen pre <=? fs_next se) && (fs_next se <? nlen pre + nlen (evq_l q))) with true by lia.
+      pose proof Hcons as Hc'. rewrite HD in Hc'. apply consec_head in Hc'. cbn [head_id]. f_equal. lia. }
+  exists pre. unfold eq_set_read. sfields. rewrite Hid, Hnew.
+  split; [exact HEq|]. split; [exact Hcons|]. split; [exact Hnext|]. split; [exact Hbad|].
+  assert (HU : head_id U = None \/ exists r, head_id U = Some r /\ nlen D <= r /\ r < nlen E).
+  { destruct U as [|[r e] U']; [now left|right]. exists r. split; [reflexivity|].
+    pose proof Hcons as Hc'. rewrite HD in Hc'. apply consec_head in Hc'. rewrite nlen_cons in HlenU. lia. }
+  split.
+  { destruct HU as [->|(r & -> & H1 & H2)]; [now left|right]. exists r. split; [reflexivity|]. lia. }
+  exists D, [], U. cbn [app map]. split; [exact HD|]. split; [exact HnD|]. split; [exact Hpd|]. split; [reflexivity|].
+  split; [reflexivity|]. split.
+  { intros _. split; [reflexivity|]. destruct HU as [->|(r & -> & H1 & H2)]; [now left|right]. exists r. split; [reflexivity|]. lia. }
+  split; [exact HA|]. split; [exact Hseen|intros i []].
+Qed.
+
+Lemma INV_resume s p se (up' closed' : bool) :
+  INV s -> st_up s = false -> a_peer s = Some p -> fb_sess s = Some se -> (fs_id se =? p_sid p) = true ->
+  INV (set_stream up' [] [] (set_queue (eq_set_closed closed' (eq_set_read (fs_next se) (p_q p))) s)).
+Proof.
+  intros H Hup Hp Hse Hid. destruct H as (Hpre & Hem & Hap & Hc & Hdown & Hsess & Hq).
+  rewrite Hp in Hq. destruct Hq as [Hsid Hq]. rewrite (set_queue_some _ _ p Hp).
+  destruct (Hdown Hup) as [Hc0 Hs0]. rewrite Hup, Hc0, Hs0, Hse in Hq.
+  unfold INV, Eof, Aof. sfields. rewrite Hse.
+  split; [exact Hpre|]. split; [exact Hem|]. split; [exact Hap|]. split; [intros t []|]. split; [intros _; now split|].
+  split; [rewrite <- Hse; exact Hsess|]. split; [exact Hsid|].
+  apply QI_closed. now apply QI_resume.
+Qed.
+
+(* clean start: B made a fresh session for A's session id; A clears its queue *)
+Lemma INV_clean s p (fed : db) (ops : list op) :
+  INV s -> st_up s = false -> a_peer s = Some p -> fb_peer s = true ->
+  INV (set_peer (Some {| p_sid := p_sid p; p_q := eq_clear (p_q p) |}) (a_sidctr s) (a_epoch s + 1) (emitted s)
+         (set_server true (Some {| fs_id := p_sid p; fs_next := 0; fs_seen := [] |}) fed (fb_ret s) ops (applied s) (published s) s)).
+Proof.
+  intros H Hup Hp Hbp. destruct H as (Hpre & Hem & Hap & Hc & Hdown & Hsess & Hq).
+  rewrite Hp in Hq. destruct Hq as [Hsid Hq]. destruct (Hdown Hup) as [Hc0 Hs0].
+  destruct Hq as (pre & HEq & Hcons & Hnext & Hbad & Hread & Hm).
+  unfold INV, Eof, Aof. sfields. rewrite Hc0, Hs0, Hup.
+  split; [exact Hpre|]. split; [intros t Ht; apply Hem in Ht; lia|]. split; [intros t Ht; apply Hap in Ht; lia|].
+  split; [intros t []|]. split; [intros _; now split|].
+  split; [intros se Hs; injection Hs as <-; now split|]. split; [exact Hsid|].
+  assert (HE0 : proj (a_epoch s + 1) (emitted s) = []) by (apply proj_none; intros t Ht; apply Hem in Ht; lia).
+  assert (HA0 : proj (a_epoch s + 1) (applied s) = []) by (apply proj_none; intros t Ht; apply Hap in Ht; lia).
+  rewrite HE0, HA0. exists []. unfold eq_clear. sfields. rewrite N.eqb_refl.
+  split; [reflexivity|]. split; [exact I|]. split; [reflexivity|]. split; [exact Hbad|]. split; [now left|].
+  exists [], [], []. cbn [app map]. split; [reflexivity|]. split; [reflexivity|]. split; [rewrite nlen_nil; lia|].
+  split; [reflexivity|]. split; [discriminate|]. split; [intros _; split; [reflexivity|now left]|].
+  split; [now left|]. split; [intros i []|intros i []].
+Qed.
+
+(* what the steps leave alone *)
+Definition kcore (s : fstate) := (option_map p_sid (a_peer s), fb_peer s, option_map fs_id (fb_sess s), a_sidctr s).
+
+Lemma kcore_emit1 e s : kcore (emit1 e s) = kcore s /\ st_up (emit1 e s) = st_up s /\ fb_sess (emit1 e s) = fb_sess s.
+Proof. unfold emit1, kcore. destruct (a_peer s) as [p|] eqn:Hp; sfields; rewrite ?Hp; auto. Qed.
+
+Lemma kcore_emit_list es s :
+  kcore (emit_list es s) = kcore s /\ st_up (emit_list es s) = st_up s /\ fb_sess (emit_list es s) = fb_sess s.
+Proof.
+  unfold emit_list. revert s. induction es as [|e r IH]; intros s; cbn [fold_left]; [auto|].
+  destruct (IH (emit1 e s)) as (H1 & H2 & H3). destruct (kcore_emit1 e s) as (H4 & H5 & H6).
+  rewrite H1, H2, H3. auto.
+Qed.
+
+Lemma kcore_cut s : kcore (fq_cut s) = kcore s /\ st_up (fq_cut s) = false /\ fb_sess (fq_cut s) = fb_sess s.
+Proof.
+  unfold fq_cut, kcore, set_queue. destruct (st_up s) eqn:Hup; [|auto]. sfields.
+  destruct (a_peer s) as [p|] eqn:Hp; sfields; auto.
 Qed.
